@@ -2,6 +2,7 @@ import Driver.Util
 import Driver.C01
 import Driver.C07
 import Driver.C02
+import Driver.C11
 open Driver
 
 /-- dispatch one request line; returns the output lines -/
@@ -15,6 +16,7 @@ def dispatch (line : String) : IO (List String) := do
   | "c02line" :: args => cmdC02Line args
   | "c02tele" :: args => cmdC02Tele args
   | "c14" :: args => cmdC14 args
+  | "c11" :: args => cmdC11 args
   | _ => return ["error unknown-command"]
 
 partial def loop (hin : IO.FS.Stream) (hout : IO.FS.Stream) : IO Unit := do
